@@ -4,6 +4,7 @@ package net
 
 import (
 	"net"
+	"net/http"
 
 	"github.com/fatedier/frp/verif"
 )
@@ -63,4 +64,26 @@ func verif_InternalListener_PutConn(l *InternalListener, conn net.Conn) {
 func verif_InternalListener_Close(l *InternalListener) {
 	l.Close()
 	verif.Ensures(l.closed && verif.Closed(l.acceptCh), "closed_after")
+}
+
+// ---------------------------------------------------------------- C07: dashboard / admin API middleware
+
+// The handler wrapped by the middleware runs only if no credentials are
+// configured, or the request carries exactly the configured user and password.
+//
+//verif:contract (*~/pkg/util/net.HTTPAuthMiddleware).Middleware$1
+//verif:props C07
+func verif_HTTPAuthMiddleware_handler(w http.ResponseWriter, r *http.Request) {
+	authMid := verif.FreeVar[*HTTPAuthMiddleware]("authMid")
+	user, passwd := authMid.user, authMid.passwd
+	reqUser, reqPasswd, hasAuth := r.BasicAuth()
+	verif.ResetEvents()
+	verif.CallTarget(w, r)
+	const evNext = "net/http.Handler).ServeHTTP"
+	if verif.Called(evNext) {
+		verif.Ensures(verif.CallCount(evNext) == 1, "served_once")
+		verif.Ensures((user == "" && passwd == "") || (hasAuth && reqUser == user && reqPasswd == passwd), "served_only_with_exact_credentials")
+	} else {
+		verif.Ensures(verif.Called("net/http.Error"), "refusal_is_a_challenge")
+	}
 }
